@@ -328,10 +328,16 @@ fn index_sweep(rep: &Report, me: Prop, root: &Path, max_n: usize, forest_extra: 
                     });
                 }
                 if prune {
-                    for mask in 0u32..(1 << n) {
+                    // `other` = a changed file that is NOT the one dependants name in their uses entry:
+                    // a target then changes without its dependants changing, so the changed set can
+                    // have holes in the middle of a dependency chain
+                    for (mask, other) in (0u32..(1 << n)).flat_map(|m| [(m, false), (m, true)]) {
+                        if other && !file_entries {
+                            continue;
+                        }
                         let changes: Vec<String> = (0..n)
                             .filter(|i| mask >> i & 1 == 1)
-                            .map(|i| format!("{}/f", FLAT[i]))
+                            .map(|i| format!("{}/{}", FLAT[i], if other { "other.txt" } else { "f" }))
                             .collect();
                         let v = prune_case(&cfg, &changes, root);
                         record(rep, me, v, rank + 50_000, || {
